@@ -14,23 +14,29 @@ ValOf(e, n) == e[CHOOSE i \in DOMAIN e : e[i].n = n].v
 IsAction(x) == Len(x) > 0 /\ SubSeq(x, 1, 1) = "@"
 ValidAction(x) == x \in {"@error", "@panic", "@ignore"}
 
-\* program: [src, tgt, map (<<>> or <<member, target>>), unknown, rootErr, pos, enumOn]
+\* program: [src, tgt, map (<<>> or <<member, target>>), tr (<<>> or <<pattern, replacement>>), unknown, rootErr, pos, enumOn, same]
+\* enum:transform regex PATTERN REPLACEMENT for single-letter literals: the member named PATTERN is renamed, every other
+\* name is unchanged; a pair is only produced when the result is a member of the target (enum/transformer_builtin.go)
+TrName(tr, n) == IF n = tr[1] THEN tr[2] ELSE n
+TrMaps(p, n) == p.tr # <<>> /\ \E i \in DOMAIN p.tgt : p.tgt[i].n = TrName(p.tr, n)
 TargetNameOf(m, n) == IF m # <<>> /\ m[1] = n THEN m[2] ELSE n
+\* enum:map, else the transformer, else the identical name (builder/enum.go Enum.Build)
+TargetName(p, n) == IF p.map # <<>> /\ p.map[1] = n THEN p.map[2] ELSE IF TrMaps(p, n) THEN TrName(p.tr, n) ELSE n
 ActionCheck(tgt, rootErr, x) ==
   IF IsAction(x) THEN (IF ~ValidAction(x) THEN "invalid-action" ELSE IF x = "@error" /\ ~rootErr THEN "error-without-error-result" ELSE "ok")
   ELSE IF Has(tgt, x) THEN "ok" ELSE "missing-target"
 Same(tgt, a, b) == IF ~IsAction(a) /\ ~IsAction(b) THEN ValOf(tgt, a) = ValOf(tgt, b) ELSE a = b
 
-RECURSIVE Walk(_,_,_,_,_,_)
-Walk(src, tgt, m, rootErr, i, seen) ==
+RECURSIVE Walk(_,_,_,_,_,_,_)
+Walk(p, src, tgt, m, rootErr, i, seen) ==
   IF i > Len(src) THEN [fail |-> "", cases |-> seen]
-  ELSE LET tn == TargetNameOf(m, src[i].n)
+  ELSE LET tn == TargetName(p, src[i].n)
            chk == ActionCheck(tgt, rootErr, tn)
        IN IF chk # "ok" THEN [fail |-> chk, cases |-> seen]
           ELSE LET prev == {j \in DOMAIN seen : seen[j].v = src[i].v} IN
-               IF prev = {} THEN Walk(src, tgt, m, rootErr, i + 1, Append(seen, [v |-> src[i].v, t |-> tn]))
+               IF prev = {} THEN Walk(p, src, tgt, m, rootErr, i + 1, Append(seen, [v |-> src[i].v, t |-> tn]))
                ELSE LET j == CHOOSE j \in prev : TRUE IN
-                    IF Same(tgt, seen[j].t, tn) THEN Walk(src, tgt, m, rootErr, i + 1, seen)
+                    IF Same(tgt, seen[j].t, tn) THEN Walk(p, src, tgt, m, rootErr, i + 1, seen)
                     ELSE [fail |-> "duplicate-mismatch", cases |-> seen]
 
 \* a nested enum pair becomes a generated method that would acquire an error result -- which the declared root
@@ -38,7 +44,8 @@ Walk(src, tgt, m, rootErr, i, seen) ==
 EffErr(p) == p.rootErr
 Gen(p) ==
   IF ~p.enumOn THEN [fail |-> "", cases |-> <<>>, cast |-> TRUE]
-  ELSE LET w == Walk(p.src, p.tgt, p.map, EffErr(p), 1, <<>>) IN
+  ELSE IF p.tr # <<>> /\ ~\E i \in DOMAIN p.src : TrMaps(p, p.src[i].n) THEN [fail |-> "transformer-maps-nothing", cases |-> <<>>, cast |-> FALSE]
+  ELSE LET w == Walk(p, p.src, p.tgt, p.map, EffErr(p), 1, <<>>) IN
   IF w.fail # "" THEN [fail |-> w.fail, cases |-> w.cases, cast |-> FALSE]
   ELSE IF p.unknown = "" THEN [fail |-> "unknown-not-configured", cases |-> w.cases, cast |-> FALSE]
   ELSE LET chk == ActionCheck(p.tgt, EffErr(p), p.unknown) IN
@@ -54,12 +61,14 @@ RunOp(p, g, x) == IF g.cast THEN [k |-> "val", v |-> x]
                        IF hit = {} THEN Act(p, p.unknown, x) ELSE Act(p, g.cases[CHOOSE j \in hit : TRUE].t, x)
 
 \* ---------------------------------------------------------------- declarative (C08)
-MapOf(p, n) == TargetNameOf(p.map, n)                       \* enum:map, else identical name
+MapOf(p, n) == TargetName(p, n)                             \* enum:map, else the configured transformer, else identical name
+TrUseless(p) == p.enumOn /\ p.tr # <<>> /\ ~\E i \in DOMAIN p.src : TrMaps(p, p.src[i].n)    \* a transformer that maps nothing: a configuration error
 TargetOK(p, a) == IF IsAction(a) THEN ValidAction(a) /\ (a = "@error" => EffErr(p)) ELSE Has(p.tgt, a)
 Agree(p, a, b) == IF IsAction(a) \/ IsAction(b) THEN a = b ELSE ValOf(p.tgt, a) = ValOf(p.tgt, b)
 EnumGenOK(p) ==
   \/ ~p.enumOn
-  \/ /\ \A i \in DOMAIN p.src : TargetOK(p, MapOf(p, p.src[i].n))                       \* every member has a target
+  \/ /\ ~TrUseless(p)
+     /\ \A i \in DOMAIN p.src : TargetOK(p, MapOf(p, p.src[i].n))                       \* every member has a target
      /\ (p.map # <<>> => Has(p.src, p.map[1]))                                             \* configured keys exist
      /\ \A i, j \in DOMAIN p.src : p.src[i].v = p.src[j].v => Agree(p, MapOf(p, p.src[i].n), MapOf(p, p.src[j].n))
      /\ p.unknown # "" /\ TargetOK(p, p.unknown)                                           \* enum:unknown present and valid
@@ -74,9 +83,18 @@ EnumsOver(vals, maxLen) == UNION { {[i \in 1..Len(ns) |-> [n |-> ns[i], v |-> f[
 Unknowns == {"", "@error", "@panic", "@ignore", "A", "Z", "@bogus"}
 Maps == {<<>>, <<"A", "B">>, <<"A", "@ignore">>, <<"Z", "A">>, <<"B", "@panic">>, <<"A", "@error">>}
 Inputs == <<0, 1, 2, 9>>
+Trs == {<<"A", "B">>, <<"B", "C">>, <<"A", "Z">>}
+Base == [tr |-> <<>>, same |-> FALSE]
 Progs(maxLen) ==
   LET E == EnumsOver({0, 1}, maxLen) IN
-  {[src |-> s, tgt |-> t, map |-> m, unknown |-> u, rootErr |-> e, pos |-> "top", enumOn |-> TRUE] : s \in E, t \in E, m \in Maps, u \in Unknowns, e \in BOOLEAN}
-  \cup {[src |-> s, tgt |-> t, map |-> <<>>, unknown |-> u, rootErr |-> e, pos |-> ps, enumOn |-> TRUE] : s \in E, t \in E, u \in Unknowns, e \in BOOLEAN, ps \in {"field", "elem"}}
-  \cup {[src |-> s, tgt |-> t, map |-> <<>>, unknown |-> u, rootErr |-> FALSE, pos |-> ps, enumOn |-> FALSE] : s \in E, t \in E, u \in {"", "@panic"}, ps \in {"top", "field"}}
+  {Base @@ [src |-> s, tgt |-> t, map |-> m, unknown |-> u, rootErr |-> e, pos |-> "top", enumOn |-> TRUE] : s \in E, t \in E, m \in Maps, u \in Unknowns, e \in BOOLEAN}
+  \cup {Base @@ [src |-> s, tgt |-> t, map |-> <<>>, unknown |-> u, rootErr |-> e, pos |-> ps, enumOn |-> TRUE] : s \in E, t \in E, u \in Unknowns, e \in BOOLEAN, ps \in {"field", "elem"}}
+  \cup {Base @@ [src |-> s, tgt |-> t, map |-> <<>>, unknown |-> u, rootErr |-> FALSE, pos |-> ps, enumOn |-> FALSE] : s \in E, t \in E, u \in {"", "@panic"}, ps \in {"top", "field"}}
+  \* one transformer, alone and together with an enum:map line for the same / another member
+  \cup {[tr |-> x, same |-> FALSE, src |-> s, tgt |-> t, map |-> m, unknown |-> u, rootErr |-> TRUE, pos |-> "top", enumOn |-> TRUE] :
+           s \in E, t \in E, x \in Trs, m \in {<<>>, <<"A", "C">>, <<"A", "@ignore">>, <<"B", "A">>}, u \in {"@error", "@ignore"}}
+  \* the same enum type on both sides
+  \* (enum:map lines are only enumerated on methods whose own pair is the enum pair: a nested pair becomes a generated method)
+  \cup {q \in {[tr |-> <<>>, same |-> TRUE, src |-> s, tgt |-> s, map |-> m, unknown |-> u, rootErr |-> e, pos |-> ps, enumOn |-> TRUE] :
+                  s \in E, m \in {<<>>, <<"A", "@panic">>}, u \in Unknowns, e \in BOOLEAN, ps \in {"top", "field", "elem"}} : q.map = <<>> \/ q.pos = "top"}
 =============================================================================
